@@ -62,7 +62,10 @@ def assist(project, source, position, filename=None, debug=False):
         if name:
             names = name.flow.names_at(position)
 
-    return prefix, sorted(set(unmark(n) if marked(n) else n for n in names))
+    proposals = set(unmark(n) if marked(n) else n for n in names)
+    # the attribute being typed itself (`self.| = 1`) is recorded under the bare cursor mark
+    proposals.discard('')
+    return prefix, sorted(proposals)
 
 
 def _loc(location, filename):
